@@ -14,8 +14,11 @@
   What is NOT modelled: the byte encoding of headers by `archive/tar` (USTAR/PAX/GNU blocks, base-256
   numbers, long-name records).  On the reading side the header is the one `archive/tar.Reader.Next` hands to
   `TarReader.Next`; on the writing side the header is the one handed to `archive/tar.Writer.WriteHeader`.
-  Two clauses of that library's contract that the GNU-tar output leg runs into are written down here
-  (`wireRefuses`, `wireMtime`) and checked against the library on every run.
+  The clauses of that library's contract that the GNU-tar output leg runs into are written down here
+  (`wireRefuses`, `wireMtime`, `wire`) and checked against the library on every run.
+
+  The behaviour before the repairs c6df8d2 (PAX global headers and hard links taken for empty files) and 8595654
+  (FormatGNU asked for headers with Xattrs) is kept as `readerNextLegacy` / `writerHdrLegacy`.
 -/
 import Desync.Model.Mode
 import Desync.Model.HttpHandler
@@ -191,12 +194,74 @@ def rootFile : TFile :=
   { name := [dot], path := [dot], mode := Mode.ModeDir ||| 0o755, mtime := ⟨-62135596800, 0⟩, size := 0,
     linkTarget := [], uid := 0, gid := 0, xattrs := [], devMajor := 0, devMinor := 0 }
 
-/-- `TarReader.Next`: the pending root first; otherwise whatever `archive/tar.Reader.Next` delivers
-    (`none` = it returned an error, `io.EOF` included, which is passed on) -/
-def readerNext (root : Option TFile) (lib : Option TarHdr) : Option TFile × Option TFile :=
+/-- an entry of a tar stream as `archive/tar.Reader` hands it out: the header `Next` returns and the bytes that
+    reading the entry yields until its end -/
+abbrev Entry := TarHdr × Bytes
+
+/-- what one call of `TarReader.Next` returns: a `File` (with what reading its `Data` yields), the error or
+    `io.EOF` with which `archive/tar.Reader.Next` ended the stream (passed on as it is), or the error
+    "<name>: hard links are not supported" -/
+inductive NextResult
+  | file (f : TFile) (data : Bytes)
+  | libEnd
+  | hardLink (name : Bytes)
+  deriving DecidableEq, Repr, Inhabited
+
+/-- the loop `for h.Typeflag == gnutar.TypeXGlobalHeader { h, err = fs.r.Next() … }` together with the call of
+    `fs.r.Next()` before it: PAX global headers are read and dropped, any number of them in a row -/
+def skipGlobal : List Entry → List Entry
+  | [] => []
+  | e :: rest => if e.1.typeflag = TypeXGlobalHeader then skipGlobal rest else e :: rest
+
+/-- `TarReader.Next` on the entries archive/tar still has to deliver (after the last of them its `Next` returns
+    `io.EOF` or an error): the pending root first; otherwise global headers are skipped — the end of the stream
+    met on the way is passed on —, a hard link entry is refused with an error, anything else becomes a `File`.
+    Returns the result, the new `root` field and the entries left. -/
+def readerNext (root : Option TFile) (es : List Entry) : NextResult × Option TFile × List Entry :=
   match root with
-  | some r => (some r, none)
-  | none => (lib.map readerFile, none)
+  | some r => (.file r [], none, es)
+  | none =>
+    match skipGlobal es with
+    | [] => (.libEnd, none, [])
+    | e :: rest =>
+      if e.1.typeflag = TypeLink then (.hardLink e.1.name, none, rest)
+      else (.file (readerFile e.1) e.2, none, rest)
+
+/-- `TarReader.Next` before the repair c6df8d2: every header archive/tar returns becomes a `File`, a PAX global
+    header and a hard link entry included -/
+def readerNextLegacy (root : Option TFile) (es : List Entry) : NextResult × Option TFile × List Entry :=
+  match root with
+  | some r => (.file r [], none, es)
+  | none =>
+    match es with
+    | [] => (.libEnd, none, [])
+    | e :: rest => (.file (readerFile e.1) e.2, none, rest)
+
+/-- calling `Next` until it returns something that is not a `File`: the files in order, and how it ended -/
+def readerAllWith (next : Option TFile → List Entry → NextResult × Option TFile × List Entry) :
+    Nat → Option TFile → List Entry → List (TFile × Bytes) × NextResult
+  | 0, _, _ => ([], .libEnd)
+  | fuel + 1, root, es =>
+    match next root es with
+    | (.file f d, root', es') =>
+      let (fs, e) := readerAllWith next fuel root' es'
+      ((f, d) :: fs, e)
+    | (r, _, _) => ([], r)
+
+def readerAll (addRoot : Bool) (es : List Entry) : List (TFile × Bytes) × NextResult :=
+  readerAllWith readerNext (es.length + 2) (if addRoot then some rootFile else none) es
+
+def readerAllLegacy (addRoot : Bool) (es : List Entry) : List (TFile × Bytes) × NextResult :=
+  readerAllWith readerNextLegacy (es.length + 2) (if addRoot then some rootFile else none) es
+
+/-- the same as a function of the entry list: global headers contribute nothing, the first hard link ends the
+    stream with an error (`some name`), otherwise the stream ends as archive/tar ends it (`none`) -/
+def readerRun : List Entry → List (TFile × Bytes) × Option Bytes
+  | [] => ([], none)
+  | e :: rest =>
+    if e.1.typeflag = TypeXGlobalHeader then readerRun rest
+    else if e.1.typeflag = TypeLink then ([], some e.1.name)
+    else ((readerFile e.1, e.2) :: (readerRun rest).1, (readerRun rest).2)
 
 /-! ### what `tar()` makes of such a `File` (tar.go; `Model/Archive.lean` takes it from here) -/
 
@@ -218,6 +283,81 @@ def recOfFile (f : TFile) (data : Bytes) : FileRec :=
 
 /-- the stat mode that ends up in the catar entry for a header of a tar stream -/
 def inputStatMode (h : TarHdr) : UInt32 := Mode.filemodeToStat (readerFile h).mode
+
+/-- the records `tar()` works with for a tar stream (`addRoot`: `TarReaderOptions.AddRoot`), and the name of the
+    hard link that ended the stream with an error, if one did -/
+def inputRecs (addRoot : Bool) (es : List Entry) : List FileRec × Option Bytes :=
+  let r := readerRun es
+  ((if addRoot then [recOfFile rootFile []] else []) ++ r.1.map (fun fd => recOfFile fd.1 fd.2), r.2)
+
+def inputRecsLegacy (addRoot : Bool) (es : List Entry) : List FileRec :=
+  (if addRoot then [recOfFile rootFile []] else []) ++ es.map (fun e => recOfFile (readerFile e.1) e.2)
+
+/-! `tar()` over a reader whose stream may end with an error instead of `io.EOF`: `tarOne` / `tarChildren` of
+    `Model/Archive.lean` with the one place made explicit where the end of the stream is looked at (the child loop's
+    `fs.Next()`): `io.EOF` ends the directory, any other error is returned.  With `eofOK = true` these are
+    `tarOne` / `tarChildren` (`tarOneE_true`, `tarChildrenE_true` in `Proofs/TarFSProofs.lean`). -/
+mutual
+def tarOneE (eofOK : Bool) : Nat → FileRec → List FileRec → Option (Bytes × List FileRec)
+  | 0, _, _ => none
+  | fuel+1, f, rest =>
+    if f.kind = .other then some ([], rest)
+    else
+      let hdr := encElem (entryElem f) ++ encXattrs f.xattrs
+      match f.kind with
+      | .dir =>
+        match tarChildrenE eofOK fuel f.path rest hdr.length [] with
+        | none => none
+        | some (body, items, rest') =>
+          let n := hdr.length + body.length
+          let items := items.map fun (it : GoodbyeItem) => { it with offset := UInt64.ofNat n - it.offset }
+          match makeGoodbyeBST items with
+          | none => none
+          | some bst =>
+            let all := bst ++ [⟨UInt64.ofNat n, UInt64.ofNat (16 + bst.length * 24 + 24), Gen.CaFormatGoodbyeTailMarker⟩]
+            some (hdr ++ body ++ encElem (.goodbye (UInt64.ofNat (16 + all.length * 24)) all), rest')
+      | .reg =>
+        if f.data.length < f.size.toNat then none
+        else some (hdr ++ encElem (.payload (16 + f.size)) ++ f.data.take f.size.toNat, rest)
+      | .symlink => some (hdr ++ encElem (.symlink (UInt64.ofNat (16 + f.target.length + 1)) f.target), rest)
+      | .device => some (hdr ++ encElem (.device 32 f.major f.minor), rest)
+      | .other => some ([], rest)
+
+def tarChildrenE (eofOK : Bool) : Nat → Bytes → List FileRec → Nat → List GoodbyeItem →
+    Option (Bytes × List GoodbyeItem × List FileRec)
+  | 0, _, _, _, _ => none
+  | _, _, [], _, items => if eofOK then some ([], items, []) else none
+  | fuel+1, dir, f :: rest, n, items =>
+    if f.parent ≠ dir then some ([], items, f :: rest)
+    else if f.kind = .other then tarChildrenE eofOK fuel dir rest n items
+    else
+      let fname := encElem (.filename (UInt64.ofNat (16 + f.base.length + 1)) f.base)
+      match tarOneE eofOK fuel f rest with
+      | none => none
+      | some (child, rest') =>
+        let sz := fname.length + child.length
+        let item : GoodbyeItem := ⟨UInt64.ofNat n, UInt64.ofNat sz, sipHashName f.base⟩
+        match tarChildrenE eofOK fuel dir rest' (n + sz) (items ++ [item]) with
+        | none => none
+        | some (more, items', rest'') => some (fname ++ child ++ more, items', rest'')
+end
+
+/-- `Tar` over a record stream that ends with `io.EOF` (`eofOK`) or with an error: the very first `fs.Next()`
+    must yield a record (`io.EOF` there is an error as well) -/
+def tarStreamE (eofOK : Bool) (fs : List FileRec) : Option Bytes :=
+  match fs with
+  | [] => none
+  | f :: rest => (tarOneE eofOK (2 * fs.length + 2) f rest).map (·.1)
+
+/-- **`Tar(NewTarReader(stream, AddRoot))`**: the catar written, or `none` = an error.  `libEOF`: archive/tar ends
+    the stream with `io.EOF` (not with an error, e.g. a stream cut short) -/
+def tarOfStream (addRoot : Bool) (es : List Entry) (libEOF : Bool) : Option Bytes :=
+  let r := inputRecs addRoot es
+  tarStreamE (libEOF && r.2.isNone) r.1
+
+/-- the same before the repair c6df8d2 -/
+def tarOfStreamLegacy (addRoot : Bool) (es : List Entry) (libEOF : Bool) : Option Bytes :=
+  tarStreamE libEOF (inputRecsLegacy addRoot es)
 
 /-! ## the GNU-tar output leg -/
 
@@ -244,35 +384,54 @@ def rawMode (m : UInt32) : UInt64 := m.toUInt64
 /-- `tarMode` (tarfs.go; defined, not called): `int64(FilemodeToStatMode(m) & 07777)` -/
 def tarMode (m : UInt32) : UInt64 := (Mode.filemodeToStat m &&& 0o7777).toUInt64
 
+/-- `TarWriter.formatFor`: extended attributes need a PAX header; otherwise the writer's `format` field -/
+def formatFor (fmt : Fmt) (xattrs : Xattrs) : Fmt := if xattrs.length > 0 then .pax else fmt
+
 /-- the composite literals of `CreateDir`, `CreateFile`, `CreateSymlink`, `CreateDevice`; `modeOf` is the
-    expression in the `Mode:` field, `fmt` the writer's `format` field.  `CreateDevice` picks the type flag
-    from `n.Mode&os.ModeCharDevice` and sets no `Format`. -/
-def writerHdrWith (modeOf : UInt32 → UInt64) (fmt : Fmt) : NKind → TNode → TarHdr
+    expression in the `Mode:` field, `fmtOf` the one in the `Format:` field as a function of the node's xattrs.
+    `CreateDevice` picks the type flag from `n.Mode&os.ModeCharDevice` and sets no `Format`. -/
+def writerHdrWith (modeOf : UInt32 → UInt64) (fmtOf : Xattrs → Fmt) : NKind → TNode → TarHdr
   | .dir, n =>
     { typeflag := TypeDir, name := n.name, uid := n.uid, gid := n.gid, mode := modeOf n.mode,
-      mtime := n.mtime, xattrs := n.xattrs, format := fmt }
+      mtime := n.mtime, xattrs := n.xattrs, format := fmtOf n.xattrs }
   | .file, n =>
     { typeflag := TypeReg, name := n.name, uid := n.uid, gid := n.gid, mode := modeOf n.mode,
-      mtime := n.mtime, size := n.size, xattrs := n.xattrs, format := fmt }
+      mtime := n.mtime, size := n.size, xattrs := n.xattrs, format := fmtOf n.xattrs }
   | .symlink, n =>
     { typeflag := TypeSymlink, linkname := n.target, name := n.name, uid := n.uid, gid := n.gid,
-      mode := modeOf n.mode, mtime := n.mtime, xattrs := n.xattrs, format := fmt }
+      mode := modeOf n.mode, mtime := n.mtime, xattrs := n.xattrs, format := fmtOf n.xattrs }
   | .device, n =>
     { typeflag := if n.mode &&& Mode.ModeCharDevice ≠ 0 then TypeChar else TypeBlock,
       name := n.name, uid := n.uid, gid := n.gid, mode := modeOf n.mode, mtime := n.mtime,
       xattrs := n.xattrs, devmajor := n.major, devminor := n.minor }
 
-/-- the header `TarWriter` hands to `archive/tar.Writer.WriteHeader` (`NewTarWriter` sets `FormatGNU`) -/
-def writerHdr : NKind → TNode → TarHdr := writerHdrWith rawMode .gnu
+/-- the header `TarWriter` hands to `archive/tar.Writer.WriteHeader`: `Mode: int64(n.Mode)`,
+    `Format: fs.formatFor(n.Xattrs)` with `fs.format = FormatGNU` (`NewTarWriter`) -/
+def writerHdr : NKind → TNode → TarHdr := writerHdrWith rawMode (formatFor .gnu)
 
-/-- the same writer with the `Mode:` fields using the helper `tarMode` that tarfs.go already contains -/
-def writerHdrTarMode : NKind → TNode → TarHdr := writerHdrWith tarMode .gnu
+/-- before the repair 8595654: `Format: fs.format`, whatever the node carries -/
+def writerHdrLegacy : NKind → TNode → TarHdr := writerHdrWith rawMode (fun _ => .gnu)
+
+/-- the writer with the `Mode:` fields using the helper `tarMode` that tarfs.go already contains -/
+def writerHdrTarMode : NKind → TNode → TarHdr := writerHdrWith tarMode (formatFor .gnu)
 
 /-! ### two clauses of archive/tar's contract (checked against the library on every run) -/
 
-/-- `Writer.WriteHeader` refuses a header that asks for `FormatGNU` and carries `Xattrs`
-    ("Format specifies GNU; and only PAX supports Xattrs") -/
-def wireRefuses (h : TarHdr) : Bool := h.format == .gnu && !h.xattrs.isEmpty
+/-- a numeric header field that does not fit seven octal digits (`!fitsInOctal(8, x)`: negative, or 2^21 and
+    above): USTAR and PAX blocks cannot hold it — for mode and device numbers there is no PAX record either —,
+    only GNU's base-256 encoding can -/
+def needsBase256 (x : UInt64) : Bool := decide (2097152 ≤ x)
+
+/-- `Writer.WriteHeader` refuses (`Header.allowedFormats`; for the formats `TarWriter` asks for: GNU, PAX, none):
+    only a PAX header holds `Xattrs` and only a GNU header holds a mode or device number beyond seven octal digits,
+    so a header that has both is refused whatever it asks for ("… PAX cannot encode Mode=…; and only PAX supports
+    Xattrs"); one that asks for `FormatGNU` and has `Xattrs` ("Format specifies GNU; and only PAX supports
+    Xattrs"); one that asks for `FormatPAX` and has such a number ("Format specifies PAX; and PAX cannot encode
+    Mode=…").  (Names and link names with NUL bytes are refused too; node names have none.) -/
+def wireRefuses (h : TarHdr) : Bool :=
+  let needsPAX := !h.xattrs.isEmpty
+  let needsGNU := needsBase256 h.mode || needsBase256 h.devmajor || needsBase256 h.devminor
+  (needsPAX && needsGNU) || (h.format == .gnu && needsPAX) || (h.format == .pax && needsGNU)
 
 /-- the modification time that survives `WriteHeader` and `Reader.Next`: under `FormatGNU` (and USTAR) the
     header stores whole seconds, `ModTime.Unix()`, the fraction is cut off (towards minus infinity); with no
@@ -283,5 +442,17 @@ def wireMtime (f : Fmt) (t : Time) : Time :=
   | .gnu | .ustar => ⟨t.sec, 0⟩
   | .unknown => if 500000000 ≤ t.nsec then ⟨t.sec + 1, 0⟩ else ⟨t.sec, 0⟩
   | .pax => t
+
+/-- the extended attributes `Reader.Next` returns: a PAX record with an empty value means "no value" to archive/tar's
+    reader, so an attribute whose value is empty is written but does not come back -/
+def wireXattrs (xs : Xattrs) : Xattrs := xs.filter fun kv => kv.2 ≠ []
+
+/-- **the header that comes back** from `Writer.WriteHeader` followed by `Reader.Next` (`none`: refused): every field
+    as it was, except the modification time, kept as far as the format keeps it, and extended attributes with an
+    empty value, which archive/tar's reader drops.  (Stated for names that are clean paths without NUL bytes and
+    attribute keys without '=' and NUL — the library refuses others — and numbers below 2^56.) -/
+def wire (h : TarHdr) : Option TarHdr :=
+  if wireRefuses h then none
+  else some { h with mtime := wireMtime h.format h.mtime, xattrs := wireXattrs h.xattrs }
 
 end Desync.TarFS
